@@ -119,8 +119,8 @@ class BuiltinsMixin:
     def dict_copy(self, d):
         c = self.class_of(d) or builtin_class('dict')
         n = self.alloc(builtin_class('dict') if c.name not in ('set', 'frozenset') else c)
-        self.st.dct = z3.Store(self.st.dct, Val.r(n), z3.Select(self.st.dct, Val.r(d)))
-        self.st.dlen = z3.Store(self.st.dlen, Val.r(n), z3.Select(self.st.dlen, Val.r(d)))
+        self.st.dct = z3.Store(self.st.dct, smt.simp(Val.r(n)), z3.Select(self.st.dct, Val.r(d)))
+        self.st.dlen = z3.Store(self.st.dlen, smt.simp(Val.r(n)), z3.Select(self.st.dlen, Val.r(d)))
         return n
 
     def merge_dicts(self, a, b):
@@ -128,11 +128,11 @@ class BuiltinsMixin:
         instantiated where members are read (no lambda / quantifier reaches the solver); the length is bounded"""
         n = self.alloc(builtin_class('dict'))
         arr = self.fresh('merged', smt.DictV)
-        self.st.dct = z3.Store(self.st.dct, Val.r(n), arr)
+        self.st.dct = z3.Store(self.st.dct, smt.simp(Val.r(n)), arr)
         ln = self.fresh('mlen', smt.I)
         la, lb = z3.Select(self.st.dlen, Val.r(a)), z3.Select(self.st.dlen, Val.r(b))
         self._add_axiom(z3.And(ln >= la, ln >= lb, ln <= la + lb, la >= 0, lb >= 0))
-        self.st.dlen = z3.Store(self.st.dlen, Val.r(n), ln)
+        self.st.dlen = z3.Store(self.st.dlen, smt.simp(Val.r(n)), ln)
         self.merged_dicts[arr.get_id()] = (arr, self.dict_arr(a), self.dict_arr(b))
         return n
 
@@ -617,8 +617,8 @@ class BuiltinsMixin:
 
     def bb_set_copy(self, s, args, kwargs):
         n = self.alloc(builtin_class('set'))
-        self.st.dct = z3.Store(self.st.dct, Val.r(n), z3.Select(self.st.dct, Val.r(s)))
-        self.st.dlen = z3.Store(self.st.dlen, Val.r(n), z3.Select(self.st.dlen, Val.r(s)))
+        self.st.dct = z3.Store(self.st.dct, smt.simp(Val.r(n)), z3.Select(self.st.dct, Val.r(s)))
+        self.st.dlen = z3.Store(self.st.dlen, smt.simp(Val.r(n)), z3.Select(self.st.dlen, Val.r(s)))
         return n
 
     def bb_set_discard(self, s, args, kwargs):
